@@ -8,7 +8,7 @@ from checks import c08
 PID = 'C13'
 RULE = ('Hypothesis: client kind (tcp, serial rtu / ascii / binary, udp) x retry settings (retries 0..3, retry_on_empty, '
         'retry_on_invalid, backoff) x request kind x a fault script with one behaviour per transmission (full reply, exception '
-        'reply, nothing, first k bytes, garbage, reply for another unit, stale reply of another transaction, late reply '
+        'reply, nothing, first k bytes, garbage, a well-framed reply with an undecodable PDU, reply for another unit, stale reply of another transaction, late reply '
         'delivered after the timeout, OSError on send, OSError on receive, peer close) of length <= 5, followed by a healthy '
         'follow-up transaction; all in virtual time. Oracle: the call returns (transport-operation budget not exhausted, '
         'virtual duration within a generous bound) without raising, transmits at most 1+retries byte-identical request '
@@ -21,7 +21,7 @@ ASSUMPTIONS = ['failure to establish a connection is excepted by the property: t
                'binary transactions whose frames contain delimiter bytes are excluded (KF-BINARY-FRAMER-DELIMITER-BYTES)']
 BUDGET = {'quick': 8000, 'thorough': 12000}
 CLIENTS = ['tcp', 'rtu', 'ascii', 'binary', 'udp']
-BEHAVIOURS = ['reply', 'exc', 'nothing', 'partial', 'garbage', 'wrong_unit', 'stale', 'late', 'oserror_send', 'oserror_recv', 'close']
+BEHAVIOURS = ['reply', 'exc', 'nothing', 'partial', 'garbage', 'wrong_unit', 'stale', 'late', 'oserror_send', 'oserror_recv', 'close', 'undecodable']
 
 
 def framing_of(c):
@@ -55,7 +55,7 @@ def sweeps(tier):
     import itertools
     cases = []
     beh = [['reply'], ['exc'], ['nothing'], ['partial', 3], ['garbage', 'deadbeef00112233445566'], ['wrong_unit'], ['stale'], ['late'],
-           ['oserror_send'], ['oserror_recv'], ['close']]
+           ['oserror_send'], ['oserror_recv'], ['close'], ['undecodable']]
     settings = [(0, False, False), (3, False, False), (2, True, False), (2, False, True), (1, True, True), (0, True, True), (3, True, True)]
     maxlen = 3 if tier == 'thorough' else 2
     for client in CLIENTS:
@@ -119,6 +119,12 @@ class FaultPeer(transports.Peer):
             return [(0.0, refframe.build(self.framing, (uid % 247) + 1, good, tid, 0))]
         if beh[0] == 'stale':
             return [(0.0, refframe.build(self.framing, uid, transports.reply_pdu(rpdu, self.seq + 500), (tid + 7) & 0xFFFF, 0))]
+        if beh[0] == 'undecodable':
+            # perfectly framed reply for this unit / transaction whose PDU no decoder knows (function 0x41)
+            body = bytes([0x41, self.seq & 0xFF])
+            if self.framing == 'rtu':
+                body = bytes([0x41]) + bytes([self.seq & 0xFF])     # unknown functions are sized as 5-byte RTU frames
+            return [(0.0, refframe.build(self.framing, uid, body, tid, 0))]
         if beh[0] == 'late':
             return [(self.timeout * 1.5 + 0.01, frame)]
         if beh[0] == 'oserror_send':
